@@ -65,6 +65,11 @@ def _r1(ctx):
             if C.is_call_to(l.iter, "zip") and [U(x) for x in l.iter.args] == [ie, op]:
                 if isinstance(l.target, ast.Tuple) and a == [U(l.target.elts[0]), U(l.target.elts[1])]:
                     good = True
+        for g in gens:
+            gen = g.generators[0]
+            if C.is_call_to(gen.iter, "zip") and [U(x) for x in gen.iter.args] == [ie, op] and isinstance(gen.target, ast.Tuple) \
+                    and a == [U(gen.target.elts[0]), U(gen.target.elts[1])] and not gen.ifs and C.in_subtree(c, g):
+                good = True
     ctx.check(good, "R1", "entry operand i is compared with instruction operand i", f.where(),
               "_check_operands is not applied to (entry operand i, operand i) for every position", f.qname,
               "position pairing")
@@ -143,12 +148,21 @@ def _r2_r3(ctx):
         ok = (len(g.generators) == 1 and U(g.elt) == U(gen.target) and len(gen.ifs) == 1
               and C.is_call_to(gen.ifs[0], "_match_operands")
               and [U(a) for a in gen.ifs[0].args] == ["%s.operands" % U(gen.target), gi.params()[2]])
+    if not nx:
+        # the same search as a loop: for c in candidates: if match(c.operands, operands): return c
+        for l in [x for x in ast.walk(gi.node) if isinstance(x, ast.For) and isinstance(x.target, ast.Name)]:
+            tests = [n for n in l.body if isinstance(n, ast.If) and C.is_call_to(n.test, "_match_operands")
+                     and [U(a) for a in n.test.args] == ["%s.operands" % l.target.id, gi.params()[2]]
+                     and any(isinstance(s, ast.Return) and U(s.value) == l.target.id for s in n.body)]
+            if len(tests) == 1 and len(l.body) == 1:
+                ok, cand = True, U(l.iter)
     ctx.check(ok, "R2", "look-up returns the first candidate whose operands match", gi.where(),
               "get_instruction is not `next(form for form in candidates if self._match_operands(form.operands, "
               "operands))`", gi.qname, "first-match search")
     if cand:
-        cd = [a for a in C.assigns_to(gi.node, cand)]
-        b = pm.match('self._data["instruction_forms_dict"].get(M_k, [])', cd[0].value) if cd else None
+        cd = [a for a in C.assigns_to(gi.node, cand)] if cand.isidentifier() else []
+        cexpr = cd[0].value if cd else ast.parse(cand, mode="eval").body      # a local, or the expression used in place
+        b = pm.match('self._data["instruction_forms_dict"].get(M_k, [])', cexpr)
         ctx.check(b is not None, "R2", "candidates are the name index's list (unsorted, unsliced)", gi.where(),
                   "candidate list is not taken as-is from the name index", gi.qname, "candidate source")
         # R3 key folding
@@ -192,6 +206,12 @@ def _fallback_slots(f, call, cfg):
         if r is call or U(r.func.value) != recv or not (isinstance(rs, ast.Assign) and U(rs.targets[0]) == var):
             continue
         if not cfg.dominates(st, rs) or len(r.args) != 2:
+            continue
+        # a retry that follows a later primary look-up into the same variable belongs to that one
+        later = [p2 for p2 in C.calls_to(f.node, "get_instruction") if p2 is not call and p2 is not r and len(p2.args) == 2
+                 and U(p2.args[0]) == mn and cfg.node_of(p2) is not st and cfg.dominates(st, cfg.node_of(p2))
+                 and cfg.dominates(cfg.node_of(p2), rs)]
+        if later:
             continue
         facts = {(U(e), p) for e, p in C.facts_at(rs)} - base
         pos = {t for t, p in facts if p}
@@ -240,6 +260,8 @@ def _r4(ctx, rule="R4", funcs=("ArchSemantics.assign_tp_lt", "ISASemantics.assig
                 if s is None:
                     ctx.bad(rule, inst, f.where(c), "the primary look-up `%s` is not followed on its miss path by "
                             "the %s fall-back" % (U(c)[:90], what), f.qname, "%s fallback after %s" % (isa, U(c)[:80]))
+                elif not s["suffix_test"]:
+                    ctx.unknown(rule, inst, f.where(s["node"]), "a retry for %s exists but its guard is not the recognised suffix test" % isa)
                 elif not (s["suffix_test"] and s["slice"] and s["operands"]) or s["extra"]:
                     ctx.bad(rule, inst, f.where(s["node"]), "the %s fall-back after `%s` deviates from its siblings "
                             "(suffix test ok=%s, retry slice ok=%s, operands unchanged=%s, extra conditions=%s)" % (
@@ -308,7 +330,8 @@ def _r6(ctx):
         if name not in spec:
             ctx.broken("R6: no decision table for %s in spec/matcher_spec.py" % name)
         try:
-            eq, info = boolfn.compare(f.node, spec[name], AXIOMS)
+            bases = {c: set(ctx.repo.mro(c)[1:]) for c in ctx.repo.classes}
+            eq, info = boolfn.compare(f.node, spec[name], AXIOMS, bases)
         except boolfn.Undecidable as e:
             ctx.broken("R6: %s is no longer a pure decision function the BDD extraction understands: %s" % (name, e))
         stats[name] = {"atoms": info["atoms_code"], "bdd_nodes": info["bdd_nodes"]}
